@@ -690,8 +690,9 @@ func main() {
 		Exec:     func(h []event) (string, string, *seqx.Failure) { return exec(r, nIDs, h) },
 		Expand:   func(h []event) bool { _, ex := excluded.Load(hkey(h)); return !ex },
 		MaxDepth: depth, Workers: 16,
-		// every history of length <= 4 is executed whatever the canonical key says
-		NoMergeDepth: 3,
+		// every history of length <= 4 (quick) / 3 (thorough, whose deeper bound multiplies the unmerged states) is
+		// executed whatever the canonical key says
+		NoMergeDepth: ev.Pick(r, 3, 2),
 	})
 	// Directed family for the dropped side: only one trace ID and the events that move the two filter
 	// generations (fill, maintain, drain, resize of the dropped capacity, clock), so that histories such as
@@ -712,8 +713,8 @@ func main() {
 		Exec:     func(h []event) (string, string, *seqx.Failure) { return exec(r, nIDs, h) },
 		Expand:   func(h []event) bool { _, ex := excluded.Load(hkey(h)); return !ex },
 		MaxDepth: dd, Workers: 16,
-		// every history of length <= 5 is executed whatever the canonical key says (alphabet of 5-6 events)
-		NoMergeDepth: 4,
+		// every history of length <= 5 (quick) / 4 (thorough) is executed whatever the canonical key says
+		NoMergeDepth: ev.Pick(r, 4, 3),
 	})
 	r.Set("traces_validated_against_impl", r.Count("transitions"))
 	for _, k := range []string{"excluded_filter_false_positive", "excluded_add_queue_overflow", "excluded_cuckoo_eviction"} {
